@@ -66,7 +66,7 @@ def names(draw):
 
 
 @st.composite
-def history(draw, min_msgs=4, max_msgs=14, sources=(1, 2, 3, 9), claims=True, single_keys=SINGLE_KEYS, fast_keys=FAST_KEYS, junk=False, name_pool=None, twins=False, time_passes=False):
+def history(draw, min_msgs=4, max_msgs=14, sources=(1, 2, 3, 9), claims=True, single_keys=SINGLE_KEYS, fast_keys=FAST_KEYS, junk=False, name_pool=None, twins=False, time_passes=False, commanded=False):
     """List of frame items with fast-packet frames of different messages interleaved."""
     database = canboat.db()
     n = draw(st.integers(min_msgs, max_msgs))
@@ -74,7 +74,7 @@ def history(draw, min_msgs=4, max_msgs=14, sources=(1, 2, 3, 9), claims=True, si
     seqs = {}
     for mi in range(n):
         kinds = ["single", "single", "fast"] + (["claim"] if claims else []) + (["junk"] if junk else []) + (["twin"] if twins else []) \
-            + (["warp"] if time_passes else []) + (["commanded"] if claims and any(m[0]["kind"] == "claim" for m in msgs) else [])
+            + (["warp"] if time_passes else []) + (["commanded"] if commanded and claims and any(m[0]["kind"] == "claim" for m in msgs) else [])
         kind = draw(st.sampled_from(kinds))
         src = draw(st.sampled_from(sources))
         if kind == "commanded":
